@@ -12,7 +12,7 @@
      * goroutine-local storage is never found missing, no unclassified panic (C14_storage_never_missing);
      * no table is left when all goroutines of the case have ended (C14_tls_released). *)
 From Coq Require Import ZArith NArith Bool List.
-From PcoreV Require Import Model.Base Model.Ctx Model.CtxGid Model.CtxRoot.
+From PcoreV Require Import Model.Base Model.Ctx Model.CtxGid Model.CtxRoot Model.CtxReg.
 Import ListNotations.
 
 Definition ctx_case := (list (list prog) * list nat * list (list event) * nat)%type.
@@ -79,3 +79,62 @@ Definition root_spec_check (c : root_case) : bool :=
   negb (forallb is_scope ps) || table_eqb final start.
 
 Definition root_spec_violations (cs : list root_case) : list N := failing root_spec_check cs.
+
+(* reg_machine (model tie of Model/CtxReg.v, family registry): a history of context creations (pcore.NewContext, the body
+   of pcore.Do, Context.Fork / px.Fork / px.Go / pcore.DoWithParent(c, ..), pcore.WithParent), registrations in the
+   implementation registry (RegisterType, Reflector().TypeFromReflect + AddTypes), loader definitions and observations
+   (ReflectedToType of 4 Go types, the type name of px.Wrap of a value of each, TypeToReflected of 3 names, px.Load of
+   3 names) run on real contexts, contexts of goroutine routes in goroutines of their own.  The model must give the same
+   result for every call: same panics (ImplAlreadyRegistered, AttemptToRedefine) and the same lookups. *)
+Definition reg_case := (list hop * list hres)%type.
+
+Definition reg_check (c : reg_case) : bool :=
+  let '(os, observed) := c in list_eqb hres_eqb (snd (hrun os)) observed.
+
+Definition reg_mismatches (cs : list reg_case) : list N := failing reg_check cs.
+
+(* reg_spec (no model; C14_registry_late_registration_reaches_descendants on the observed data): after a registration
+   of (t, g) through context c that succeeded, every observation through c or a descendant of c (registry parents as
+   given by the creating calls) reports type t for the Go type g - until the next successful registration of g
+   anywhere - and no call ever reported a missing context or level *)
+Definition reg_parent (o : hop) : option (option nat) :=     (* Some p: the call creates a context with registry parent p *)
+  match o with
+  | HNew | HDo => Some None
+  | HFork c => Some (Some c)
+  | HWith cr _ => Some (Some cr)
+  | _ => None
+  end.
+
+Fixpoint descends (fuel : nat) (ps : list (option nat)) (d c : nat) : bool :=
+  Nat.eqb d c ||
+  match fuel with
+  | O => false
+  | S f => match nth d ps None with Some p => descends f ps p c | None => false end
+  end.
+
+(* facts: (context, type identity, Go type) of the latest successful registration of each Go type *)
+Fixpoint reg_spec_run (ps : list (option nat)) (facts : list (nat * N * N)) (os : list hop) (rs : list hres) : bool :=
+  match os, rs with
+  | o :: os', r :: rs' =>
+    match r with HBad => false | _ =>
+    match o, r with
+    | HRegister c t g, HOk =>
+      reg_spec_run ps ((c, t_id t, g) :: filter (fun f => negb (N.eqb (snd f) g)) facts) os' rs'
+    | HObserve d, HObs r2ts _ _ _ =>
+      forallb (fun f => let '(c, tid, g) := f in
+                        negb (descends (length ps) ps d c) ||
+                        rres_eqb N.eqb (nth (N.to_nat g) r2ts RStuck) (RFound tid)) facts
+      && reg_spec_run ps facts os' rs'
+    | _, _ =>
+      match reg_parent o, r with
+      | Some p, HOk => reg_spec_run (ps ++ [p]) facts os' rs'
+      | _, _ => reg_spec_run ps facts os' rs'
+      end
+    end end
+  | [], [] => true
+  | _, _ => false
+  end.
+
+Definition reg_spec_check (c : reg_case) : bool := let '(os, observed) := c in reg_spec_run [] [] os observed.
+
+Definition reg_spec_violations (cs : list reg_case) : list N := failing reg_spec_check cs.
